@@ -1,6 +1,7 @@
 package main
 
 import (
+	"google.golang.org/protobuf/reflect/protoreflect"
 	"bytes"
 	"fmt"
 	"math/rand/v2"
@@ -159,6 +160,32 @@ func c15Probes(r *rand.Rand, cfg *SvcConfig) []*c15Probe {
 	return out
 }
 
+// c15PrivateProbes: RPCs of the main service whose response carries a google.protobuf.Any of a type only that service's
+// resolver knows (google.api.HttpBody.extensions), asked for in JSON and in proto.
+func c15PrivateProbes(r *rand.Rand, cfg *SvcConfig) []*c15Probe {
+	var out []*c15Probe
+	m := kitchenInfo["RawOut"]
+	for _, codec := range []string{"json", "proto"} {
+		for _, form := range []ClientForm{FConnectUnary, FGRPC} {
+			resp := newMsg(m.Out())
+			rm := resp.ProtoReflect()
+			fs := rm.Descriptor().Fields()
+			rm.Set(fs.ByName("content_type"), protoreflect.ValueOfString("text/plain"))
+			rm.Set(fs.ByName("data"), protoreflect.ValueOfBytes([]byte("private")))
+			rm.Mutable(fs.ByName("extensions")).List().Append(protoreflect.ValueOfMessage(privateAny("note-" + codec).ProtoReflect()))
+			creq := &ClientReq{Form: form, M: m, Codec: codec, HTTP2: true, FrameComp: []bool{false},
+				Msgs: []protoMsg{genMessage(r, m.In(), genOpts{noMaps: true, density: 2})}}
+			s := &Scenario{Cfg: cfg, Req: creq, Script: &BackendScript{Msgs: []protoMsg{resp}, FrameComp: []bool{false}}, Target: resolveTarget(cfg, form.Protocol())}
+			built, err := creq.Build(r)
+			if err != nil {
+				continue
+			}
+			out = append(out, &c15Probe{s: s, raw: built.Raw})
+		}
+	}
+	return out
+}
+
 func c15RunProbe(p *c15Probe, t *vanguard.Transcoder, r *rand.Rand) (*Exec, error) {
 	creq := *p.s.Req
 	creq.UseRawBody, creq.RawBody = true, p.raw
@@ -185,11 +212,18 @@ func runC15(c *Ctx, i int, r *rand.Rand) {
 	kitchen()
 	cfg := genConfig(r)
 	cfg.Limit = pick(r, []uint32{16 << 10, 64 << 10, 1 << 20, 12 << 20})
+	if chance(r, 35) && (len(cfg.Protocols) > 1 || cfg.Protocols[0] != "rest") {
+		cfg.TwoResolvers = true
+		c.Count("two-services-with-different-resolvers")
+	}
 	tUsed, err := buildTranscoder(cfg, true)
 	if err != nil {
 		return
 	}
 	probes := c15Probes(r, cfg)
+	if cfg.TwoResolvers {
+		probes = append(probes, c15PrivateProbes(r, cfg)...)
+	}
 	st := c15Stats
 	// reference: each probe on a transcoder that has served nothing
 	var ref []*Exec
@@ -212,7 +246,19 @@ func runC15(c *Ctx, i int, r *rand.Rand) {
 	for k := 0; k < n; k++ {
 		var e *Exec
 		kind := ""
-		switch r.IntN(9) {
+		sel := r.IntN(9)
+		if cfg.TwoResolvers && (k < 2 || chance(r, 20)) {
+			sel = 9 // early traffic to the other service: whatever the transcoder initialises lazily is initialised by it
+		}
+		switch sel {
+		case 9:
+			selServices()
+			m := oneMs[0]
+			creq := &ClientReq{Form: pick(r, []ClientForm{FConnectUnary, FGRPC, FGRPCWeb}), M: m, Codec: pick(r, []string{"json", "json", "proto"}), HTTP2: true,
+				Msgs: []protoMsg{genMessage(r, m.In(), genOpts{noMaps: true, density: 3})}, FrameComp: []bool{false}}
+			script := &BackendScript{Msgs: []protoMsg{genMessage(r, m.Out(), genOpts{noMaps: true, density: 3})}}
+			e, _ = runRPC(cfg, creq, script, r, &execOpts{Transcoder: tUsed})
+			kind = "other-service"
 		case 8:
 			s := genScenario(r, ScenOpts{Cfg: cfg}, "h")
 			if s == nil {
